@@ -28,7 +28,10 @@ def generate(k, mask_bits, t):
                       threshold=t)
     if isinstance(result, Raised):
         return result
-    return gens.rows_of_accessor(result[1], k)
+    try:
+        return gens.rows_of_accessor(result[1], k)
+    except (ValueError, TypeError, IndexError) as exc:
+        return Raised(TypeError("generation returned a malformed accessor: %s" % exc))
 
 
 def check_encode(rows, k, start, bits, fast, table, t, labels):
